@@ -283,7 +283,7 @@ def _parse_tlc_output(res, out):
 
 
 def run_tlc(spec, cfg, workdir, workers=None, simulate=None, depth=None, seed=None, timeout=600,
-            coverage=False, deadlock=None, extra=None, java_opts=None, dfs=False, heap="8g"):
+            coverage=False, deadlock=None, extra=None, java_opts=None, dfs=False, heap="8g", include=None):
     """Runs TLC in a scratch copy of the spec's directory tree (spec root = VERIF/spec)."""
     res = TLCResult()
     specroot = os.path.join(VERIF, "spec")
@@ -293,7 +293,8 @@ def run_tlc(spec, cfg, workdir, workers=None, simulate=None, depth=None, seed=No
     os.makedirs(scratch)
     # flatten: copy every .tla of spec/common and of the spec's own directory, plus the cfg
     sdir = os.path.dirname(os.path.abspath(spec))
-    for d in (os.path.join(specroot, "common"), sdir):
+    incl = [os.path.join(specroot, x) for x in (include or [])]
+    for d in [os.path.join(specroot, "common")] + incl + [sdir]:
         if os.path.isdir(d):
             for f in os.listdir(d):
                 if f.endswith(".tla") or f.endswith(".cfg"):
